@@ -22,6 +22,22 @@ CLAIMS = {
         "per quick run.",
    technique="Lean 4 proof (sheet names, wrapper cache) + relational testing across input channels + correspondence",
    design="§6 C16"),
+ "C17": dict(
+   text="Partial proof (Lean 4) about the code-shaped model of _rdp (stack ranges as a recursion with fuel = number of points, "
+        "first-maximum scan with strict >, zero-length chord `continue`) for polylines of ANY length and ANY tolerance: rdp_ends "
+        "(both end points kept), rdp_sorted (kept indices strictly increasing = original order), rdp_chain (between two "
+        "neighbouring kept points every original point has cross^2 <= eps^2 |chord|^2, i.e. is within eps of the chord; induction "
+        "over the recursion with an invariant for the farthest-point scan), rdp_within_segment (for a point coordinatewise between "
+        "the chord ends - every point of a monotone profile - that is a bound on the distance from the chord SEGMENT, so from the "
+        "simplified polyline); clean_sublist (clean_composite_curve only removes points). The 1e-6 clause of clean_composite_curve "
+        "is FALSE of the code: clean_drift_witness is a kernel-decided counterexample on the model, replayed on the implementation "
+        "(known finding). The one-sided eps/10 clause depends on an SLSQP optimiser (not modelled); it is decided by the oracle and "
+        "fails on both paths (known findings C17-one-sided-unrefined, C17-slsqp-refinement). Oracle: ends, order, deviation from the "
+        "polyline, one-sided bound on 500+ random (h,T) profiles (2-40 points quick, to 500 thorough; plateaus, steps, repeated "
+        "points; hot and cold) and the three clean clauses on 1500+ composite-curve columns; kept indices / kept points compared "
+        "with the model on every case.",
+   technique="Lean 4 proof (induction over the RDP recursion + segment-distance geometry, partial) + correspondence testing + polyline-distance oracle",
+   design="§6 C17"),
  "C02": dict(
    text="Proof (Lean 4): di_balance (direct-integration record: Qh-Qc = cold-hot duty, Qr = hot-Qc, all >= 0 for non-negative CP; "
         "corollary of the C01 closed form, any number of streams/rows), tz_balance (sums of balanced records are balanced, by "
